@@ -1000,6 +1000,17 @@ func (sc *SpecCtx) specConvert(v Val, ty types.Type) Val {
 	if isUntypedInt(ty) {
 		return Val{Ty: specInt, T: vc.toInt(v)}
 	}
+	if tb, ok := vc.under(ty).(*types.Basic); ok && tb.Info()&types.IsString != 0 {
+		if _, fromSlice := vc.under(v.Ty).(*types.Slice); fromSlice {
+			// string(b): the same uninterpreted function of the bytes the code-side conversion uses
+			return Val{Ty: ty, T: vc.pureApp("string.ofbytes", []Val{v}, types.Typ[types.String], func(comp, srt string) Term {
+				if sc.hp != nil {
+					return sc.hp.term(comp, srt)
+				}
+				return vc.heapGet(sc.st, comp, srt)
+			})}
+		}
+	}
 	v.Ty = ty
 	return v
 }
